@@ -6,12 +6,15 @@ use serde_json::{json, Value};
 use text_utils::data::loading::{train_data_generator_from_jsonl, GenerationStrategy, MultiTrainDataGenerator, TrainDataGenerator};
 use text_utils::data::TrainData;
 
-fn sources(lens: &[usize]) -> Vec<TrainDataGenerator> {
+type Errs = Vec<(usize, usize)>;
+
+fn sources(lens: &[usize], errs: &Errs) -> Vec<TrainDataGenerator> {
     lens.iter()
         .enumerate()
         .map(|(s, &l)| {
-            let v: Vec<anyhow::Result<TrainData>> =
-                (0..l).map(|p| Ok(TrainData::new(format!("{} {}", s + 1, p), None))).collect();
+            let v: Vec<anyhow::Result<TrainData>> = (0..l)
+                .map(|p| if errs.contains(&(s, p)) { Err(anyhow::anyhow!("reader failed at {s} {p}")) } else { Ok(TrainData::new(format!("{} {}", s + 1, p), None)) })
+                .collect();
             Box::new(v.into_iter()) as TrainDataGenerator
         })
         .collect()
@@ -19,12 +22,15 @@ fn sources(lens: &[usize]) -> Vec<TrainDataGenerator> {
 
 /// the same sources as jsonl files read by the library's own reader; `eol` selects the line
 /// ending style: 0 = LF, 1 = CRLF, 2 = LF without a trailing newline at the end of the file
-fn file_sources(lens: &[usize], eol: u64, dir: &std::path::Path) -> anyhow::Result<Vec<TrainDataGenerator>> {
+fn file_sources(lens: &[usize], eol: u64, dir: &std::path::Path, errs: &Errs) -> anyhow::Result<Vec<TrainDataGenerator>> {
     let mut out = vec![];
     for (s, &l) in lens.iter().enumerate() {
         let p = dir.join(format!("src{s}.jsonl"));
         let sep = if eol == 1 { "\r\n" } else { "\n" };
-        let mut text: String = (0..l).map(|k| format!("{{\"input\": \"{} {}\"}}{sep}", s + 1, k)).collect();
+        // an error position is a malformed json line
+        let mut text: String = (0..l)
+            .map(|k| if errs.contains(&(s, k)) { format!("{{\"input\": {sep}") } else { format!("{{\"input\": \"{} {}\"}}{sep}", s + 1, k) })
+            .collect();
         if eol == 2 && text.ends_with('\n') {
             text.pop();
         }
@@ -43,25 +49,27 @@ fn strategy(s: &str) -> GenerationStrategy {
 }
 
 /// One complete iteration: returns (items as [tag, src_from_payload, pos], ended, status)
-fn run(lens: &[usize], strat: &str, seed: u64, files: Option<u64>) -> (Vec<Value>, bool, String, i64) {
+fn run(lens: &[usize], strat: &str, seed: u64, files: Option<u64>, errs: &Errs) -> (Vec<Value>, bool, String, i64) {
     let total: usize = lens.iter().sum();
     let dir = std::env::temp_dir().join(format!("tuverif-mg-{}-{:?}", std::process::id(), std::thread::current().id()));
     let srcs = match files {
-        None => sources(lens),
+        None => sources(lens, errs),
         Some(eol) => {
             let _ = std::fs::create_dir_all(&dir);
-            match file_sources(lens, eol, &dir) {
+            match file_sources(lens, eol, &dir, errs) {
                 Ok(s) => s,
                 Err(e) => return (vec![], false, format!("err:files:{e}"), -1),
             }
         }
     };
-    let r = run_with(srcs, total, lens.len(), strat, seed);
+    let r = run_with(srcs, total, lens.len(), strat, seed, errs);
     let _ = std::fs::remove_dir_all(&dir);
     r
 }
 
-fn run_with(srcs: Vec<TrainDataGenerator>, total: usize, nsrc: usize, strat: &str, seed: u64) -> (Vec<Value>, bool, String, i64) {
+fn run_with(srcs: Vec<TrainDataGenerator>, total: usize, nsrc: usize, strat: &str, seed: u64, errs: &Errs) -> (Vec<Value>, bool, String, i64) {
+    // items handed out per source so far: an error item carries no payload, its position is its rank within its source
+    let mut seen = vec![0usize; nsrc];
     let lens_len = nsrc;
     let gen = match guard(|| MultiTrainDataGenerator::new(srcs, strategy(strat), Some(seed))) {
         Ok(Ok(g)) => g,
@@ -79,8 +87,17 @@ fn run_with(srcs: Vec<TrainDataGenerator>, total: usize, nsrc: usize, strat: &st
             Ok(Some((Ok(d), tag))) => {
                 let parts: Vec<usize> = d.verif_input().split(' ').map(|x| x.parse().unwrap_or(9999)).collect();
                 out.push(json!([tag + 1, parts[0], parts[1]]));
+                if tag < nsrc { seen[tag] += 1; }
             }
-            Ok(Some((Err(e), _))) => return (out, false, format!("err:item:{e}"), reported),
+            Ok(Some((Err(e), tag))) => {
+                // an error item that the case placed there is an item like any other; any other error is a finding
+                if tag < nsrc && errs.contains(&(tag, seen[tag])) {
+                    out.push(json!([tag + 1, tag + 1, seen[tag]]));
+                    seen[tag] += 1;
+                } else {
+                    return (out, false, format!("err:item:{e}"), reported);
+                }
+            }
             Ok(None) => {
                 ended = true;
                 break;
@@ -96,9 +113,10 @@ pub fn exec(case: &Value) -> Vec<Value> {
     let strat = get_str(case, "strategy");
     let seed = case.get("seed").and_then(|x| x.as_u64()).unwrap_or(0);
     let files = case.get("files").and_then(|x| x.as_u64());
-    let (out, ended, st, reported) = run(&lens, strat, seed, files);
+    let errs: Errs = case.get("errs").and_then(|x| x.as_array()).map(|a| a.iter().map(|e| (e[0].as_u64().unwrap() as usize, e[1].as_u64().unwrap() as usize)).collect()).unwrap_or_default();
+    let (out, ended, st, reported) = run(&lens, strat, seed, files, &errs);
     // same seed again: the result must be reproducible
-    let (out2, _, _, _) = run(&lens, strat, seed, files);
+    let (out2, _, _, _) = run(&lens, strat, seed, files, &errs);
     vec![json!({"st": st, "lens": lens, "strategy": strat, "seed": seed, "out": out, "out2": out2,
                 "ended": ended, "reported_len": reported, "files": files.map(|x| x as i64).unwrap_or(-1), "case": case})]
 }
@@ -111,10 +129,18 @@ pub fn gen(seed: u64, n: usize) -> Vec<Value> {
             let k = rng.random_range(1..=6);
             let lo = if strat == "weighted" { 1 } else { 0 };
             let lens: Vec<usize> = (0..k).map(|_| rng.random_range(lo..=9)).collect();
+            let mut errs: Vec<Value> = vec![];
             if rng.random_bool(0.3) {
-                json!({"lens": lens, "strategy": strat, "seed": rng.random::<u32>(), "files": rng.random_range(0..3u64)})
+                for (s, &l) in lens.iter().enumerate() {
+                    for p in 0..l {
+                        if rng.random_bool(0.15) { errs.push(json!([s, p])); }
+                    }
+                }
+            }
+            if rng.random_bool(0.3) {
+                json!({"lens": lens, "strategy": strat, "seed": rng.random::<u32>(), "files": rng.random_range(0..3u64), "errs": errs})
             } else {
-                json!({"lens": lens, "strategy": strat, "seed": rng.random::<u32>()})
+                json!({"lens": lens, "strategy": strat, "seed": rng.random::<u32>(), "errs": errs})
             }
         })
         .collect()
